@@ -128,6 +128,10 @@ func generate(t *testing.T, run *hx.Run) {
 			run.Case(encodeID("gov", w.cfg.attrs(), caseID("gov")), w.caseAttrs()...)
 			g := &govGen{w: w, rng: rng}
 			var sample []string
+			for _, l := range g.ringVsCommittee() {
+				emitGroup(run, w, []string{l}, &sample)
+				run.Count("directed.ring-vs-committee")
+			}
 			for j := 0; j < nops; j++ {
 				emitGroup(run, w, []string{g.next()}, &sample)
 			}
@@ -632,20 +636,116 @@ func (g *govGen) bal(tag string) int64 {
 	return 0
 }
 
+// ring: a NeoFSAlphabet role list of 1..7 keys. The Inner Ring is designated independently of the committee, so the
+// lists cover: non-committee nodes only, exactly the committee, the committee plus extra nodes whose keys sort before /
+// after / around the committee keys, and arbitrary mixtures (the role list is kept sorted by key by the native contract,
+// so extra nodes with smaller keys shift the committee members away from their Alphabet index).
+func (g *govGen) ring() []string {
+	w := g.w
+	var cm, before, after, mid []string
+	for i := 0; i < w.cfg.n; i++ {
+		cm = append(cm, fmt.Sprintf("M%d", i))
+	}
+	for i := 0; i < nIR; i++ {
+		t := fmt.Sprintf("I%d", i)
+		lo, hi := true, true
+		for _, m := range cm {
+			if w.keyCmp(t, m) > 0 {
+				lo = false
+			}
+			if w.keyCmp(t, m) < 0 {
+				hi = false
+			}
+		}
+		switch {
+		case lo:
+			before = append(before, t)
+		case hi:
+			after = append(after, t)
+		default:
+			mid = append(mid, t)
+		}
+	}
+	pick := func(pool []string, k int) []string {
+		p := append([]string{}, pool...)
+		g.rng.Shuffle(len(p), func(i, j int) { p[i], p[j] = p[j], p[i] })
+		if k > len(p) {
+			k = len(p)
+		}
+		return p[:k]
+	}
+	all := append(append(append([]string{}, before...), mid...), after...)
+	var tags []string
+	room := nIR - len(cm)
+	switch g.rng.IntN(8) {
+	case 0, 1: // non-committee nodes only
+		tags = pick(all, 1+g.rng.IntN(nIR))
+	case 2: // exactly the committee
+		tags = cm
+	case 3: // the committee and extra nodes with smaller keys
+		tags = append(append([]string{}, cm...), pick(before, 1+g.rng.IntN(room+1))...)
+	case 4: // the committee and extra nodes with larger keys
+		tags = append(append([]string{}, cm...), pick(after, 1+g.rng.IntN(room+1))...)
+	case 5: // the committee and any extra nodes
+		tags = append(append([]string{}, cm...), pick(all, 1+g.rng.IntN(room+1))...)
+	default: // any mixture
+		tags = pick(append(append([]string{}, cm...), all...), 1+g.rng.IntN(nIR))
+	}
+	if len(tags) > nIR {
+		tags = tags[:nIR]
+	}
+	if len(tags) == 0 {
+		tags = []string{"I0"}
+	}
+	out := make([]string, len(tags))
+	for i, t := range tags {
+		out[i] = "#" + t
+	}
+	return out
+}
+
+// ringVsCommittee: directed histories inside C19's quantifier ("Inner Ring sizes 1..7", emit): instance a0 is funded and
+// the role list is set to (1) non-committee nodes only, (2) the committee plus extra nodes, (3) exactly the committee;
+// under each list the emission is requested by the Inner Ring node sitting at the contract's Alphabet index, by another
+// Alphabet node, by a stranger, and by the contract's own Alphabet node: only the last one may trigger it, and it must.
+func (g *govGen) ringVsCommittee() (ops []string) {
+	w := g.w
+	idx := w.cfg.i0
+	own := fmt.Sprintf("M%d", idx)
+	var cm, is []string
+	for i := 0; i < w.cfg.n; i++ {
+		cm = append(cm, fmt.Sprintf("#M%d", i))
+	}
+	for i := 0; i < nIR; i++ {
+		is = append(is, fmt.Sprintf("#I%d", i))
+	}
+	k := idx + 1 + g.rng.IntN(nIR-idx)
+	lists := [][]string{is[:k], append(append([]string{}, cm...), is[:nIR-len(cm)]...), cm}
+	for _, l := range lists {
+		if len(l) == 0 {
+			continue
+		}
+		sorted := w.sortKeyTags(l)
+		ops = append(ops, fmt.Sprintf("op F fund @F @a0 %d", 1000+g.rng.IntN(1000)), "op cmt desig "+strings.Join(l, ","))
+		if idx < len(sorted) && sorted[idx][1:] != own {
+			ops = append(ops, fmt.Sprintf("op %s emit @a0", sorted[idx][1:]))
+		}
+		if w.cfg.n > 1 {
+			ops = append(ops, fmt.Sprintf("op M%d emit @a0", (idx+1)%w.cfg.n))
+		}
+		ops = append(ops, "op S0 emit @a0", fmt.Sprintf("op %s emit @a0", own))
+	}
+	return
+}
+
 func (g *govGen) next() string {
 	w := g.w
 	r := g.rng.IntN(100)
 	inst := hx.Pick(g.rng, []string{"a0", "a0", "a0", "a1", "a1", "aX", "aN"})
 	switch {
 	case r < 12 || len(w.prev.ir) == 0 && r < 40:
-		k := 1 + g.rng.IntN(nIR)
-		perm := g.rng.Perm(nIR)
-		var ks []string
-		for _, i := range perm[:k] {
-			ks = append(ks, fmt.Sprintf("#I%d", i))
-		}
 		sig := "cmt"
-		list := strings.Join(ks, ",")
+		list := strings.Join(g.ring(), ",")
 		switch g.rng.IntN(14) {
 		case 0:
 			sig = hx.Pick(g.rng, []string{"S0", "-", "M0"})
@@ -677,18 +777,30 @@ func (g *govGen) next() string {
 			}
 		}
 		sig := "-"
-		switch x := g.rng.IntN(10); {
-		case x < 6 && idx >= 0 && idx < w.cfg.n:
+		switch x := g.rng.IntN(12); {
+		case x < 5 && idx >= 0 && idx < w.cfg.n: // its own Alphabet node
 			sig = fmt.Sprintf("M%d", idx)
-		case x < 7:
+		case x < 7 && idx >= 0 && idx < len(w.prev.ir): // the Inner Ring node that sits at the contract's index
+			sig = w.prev.ir[idx][1:]
+		case x < 8: // some Alphabet node
 			sig = fmt.Sprintf("M%d", g.rng.IntN(w.cfg.n))
-		case x < 8:
+		case x < 9:
 			var all []string
 			for i := 0; i < w.cfg.n; i++ {
 				all = append(all, fmt.Sprintf("M%d", i))
 			}
 			sig = strings.Join(all, ",")
-		case x < 9:
+		case x < 10: // every Inner Ring node that is not the contract's own Alphabet node
+			var all []string
+			for _, t := range w.prev.ir {
+				if t[1:] != fmt.Sprintf("M%d", idx) {
+					all = append(all, t[1:])
+				}
+			}
+			if len(all) > 0 {
+				sig = strings.Join(all, ",")
+			}
+		case x < 11:
 			sig = hx.Pick(g.rng, []string{"S0", "cmt", "val", "I0"})
 		}
 		return fmt.Sprintf("op %s emit @%s", sig, inst)
